@@ -18,6 +18,12 @@ def st(sev, tag, named, items):
     return "st:%d:%s:%s:%s" % (sev, "~" if tag is None else hexs(tag), named, ",".join(items) if items else "_")
 
 
+def ov(sa, ta, ia, sb, tb, ib):
+    f = lambda t: "~" if t is None else hexs(t)
+    g = lambda its: ",".join(its) if its else "_"
+    return "ov:%d:%s:%s:%d:%s:%s" % (sa, f(ta), g(ia), sb, f(tb), g(ib))
+
+
 def lcase(ptag, minsev, fid, members, ops):
     return "\t".join(["log", ptag, str(minsev), str(fid), str(members), ";".join(ops)])
 
@@ -82,6 +88,16 @@ def gen_log(ptag, tier, rng):
                     out.append(lcase(ptag, m, fid, 1 + 2 * (base % 2),
                                      ["thr:0:%d" % t0, "thr:1:%d" % t1, "thr:2:%d" % t2,
                                       st(sev, [None, "T"][base % 2], form, mk_items(pat, base))]))
+    # two named streams open at the same time (same severity, or the next one), interleaved insertions
+    for m in (0, 2, 3):
+        for thr in (0, 2, 4):
+            for sa in range(6):
+                for same in (True, False):
+                    for pa, pb in ((["s"], ["s"]), (["s", "L"], ["L", "s", "s"]), ([], ["s"]), (["L"], [])):
+                        base += 1
+                        sb = sa if same else (sa + 1) % 6
+                        out.append(lcase(ptag, m, 0, 1 + 2 * (base % 2),
+                                         ["thr:0:%d" % thr, ov(sa, "A", mk_items(pa, base), sb, [None, "B"][base % 2], mk_items(pb, base + 3))]))
     # histories: several statements, thresholds changing in between
     for _ in range(20000 if big else 2500):
         m = rng.below(6)
@@ -90,6 +106,11 @@ def gen_log(ptag, tier, rng):
         for _ in range(1 + rng.below(8)):
             if rng.chance(1, 4):
                 ops.append("thr:%d:%d" % (rng.below(3), rng.below(6)))
+            elif rng.chance(1, 6):
+                sa = rng.below(6)
+                ops.append(ov(sa, rng.choice([None, "a"]), mk_items([rng.choice("sLi") for _ in range(rng.below(4))], rng.below(1000)),
+                              rng.choice([sa, (sa + 1) % 6]), rng.choice([None, "b"]),
+                              mk_items([rng.choice("sLd") for _ in range(rng.below(4))], rng.below(1000))))
             else:
                 pat = [rng.choice("ssLLicdp") for _ in range(rng.below(6))]
                 n = len(pat)
